@@ -43,21 +43,21 @@ groups = {
  'C02': STREAM + STMT + ISX + ECONST + ['statementPrefixes', 'getStatementCategorySrc'],
  'C03': STREAM + ['commonNextPositionSrc', 'commonRotateSrc', 'positionStructTags', 'streamBody', 'noticeDumpCalls'],
  'C04': STREAM + ['streamBody', 'SetBinlogPositionSrc', 'binlogPositionSrc'],
- 'C05': ['streamBody', 'errorSrc', 'readerBody', 'startDumpSrc', 'conn_closeSrc', 'errChanCap', 'eventChanCap',
+ 'C05': STREAM + ['streamBody', 'errorSrc', 'readerBody', 'startDumpSrc', 'conn_closeSrc', 'errChanCap', 'eventChanCap',
          'newSlaveConnectionSrc', 'loopSkeleton'],
  'C06': STREAM + ROWCONV + ['streamBody', 'errorSrc', 'readerBody', 'conn_readBinlogEventSrc', 'errChanCap', 'parseEventsReturns', 'loopSkeleton',
          'error_newErrorSrc', 'error_msgfSrc', 'error_OriginalSrc', 'error_ErrorSrc', 'error_ErrorFormats'],
- 'C07': ['execLiterals', 'noticeDumpCalls', 'prepareForReplicationSrc', 'startDumpSrc', 'newSlaveConnectionSrc', 'streamBody',
+ 'C07': STREAM + ['execLiterals', 'noticeDumpCalls', 'prepareForReplicationSrc', 'startDumpSrc', 'newSlaveConnectionSrc', 'streamBody',
          'SetBinlogPositionSrc', 'binlogPositionSrc'],
  'C08': ['conn_readBinlogEventSrc', 'printTimestampSrc', 'zeroTimestampInit', 'closure_begin', 'closure_commit', 'cellBytesCases']
         + [k for k in defs if k.startswith('cellBytesBody')] + ROWCONV,   # Mem model: which bodies hand out sub-slices / constants
  'C09': ['fnRowsSrc', 'cellLengthFixed', 'cellLengthOther', 'cellBytesCases', 'newBitmapSrc', 'bitmapBitSrc', 'bitmapBitCountSrc',
          'bitmapCountSrc', 'readLenEncIntSrc', 'dig2bytes', 'formatHeaderSizeSrc'] + [k for k in defs if k.startswith('cellBytesBody')]
         + ['getValuesFromRowSrc', 'getIdentifiesFromRowSrc'] + TYPES,
- 'C10': ['cellLengthFixed', 'cellBytesCases'] + bodies(1, 13, 2, 9, 3, 4, 5, 8, 16, 247, 248, 254) + TYPES + ROWCONV,
+ 'C10': ['cellLengthFixed', 'cellBytesCases'] + bodies(1, 13, 2, 9, 3, 4, 5, 8, 16, 247, 248, 254) + TYPES + ROWCONV + ['fnRowsSrc', 'newBitmapSrc', 'bitmapBitSrc', 'bitmapBitCountSrc', 'bitmapCountSrc'],
  'C11': ['dig2bytes', 'cellBytesCases', 'cellLengthOther'] + bodies(246),
  'C12': ['printTimestampSrc', 'zeroTimestampInit', 'cellBytesCases', 'cellLengthFixed', 'cellLengthOther'] + bodies(7, 10, 11, 12, 17, 18, 19),
- 'C13': ['cellBytesCases', 'cellLengthOther'] + bodies(15, 254, 252, 255) + ['getValuesFromRowSrc', 'getIdentifiesFromRowSrc', 'newColumnDataSrc'],
+ 'C13': ['cellBytesCases', 'cellLengthOther'] + bodies(15, 254, 252, 255) + ['getValuesFromRowSrc', 'getIdentifiesFromRowSrc', 'newColumnDataSrc', 'fnRowsSrc', 'newBitmapSrc', 'bitmapBitSrc', 'bitmapBitCountSrc', 'bitmapCountSrc'] + STREAM,
  'C14': JSONC + JSONS + ['dig2bytes', 'cellBytesCases'] + bodies(245, 246),
  'C15': ['fnTableMapSrc', 'metadataClass', 'readLenEncIntSrc', 'commonTableIDSrc', 'newBitmapSrc', 'formatHeaderSizeSrc',
          'eTableMapEvent', 'bitmapCountSrc'] + STREAM + ROWCONV,
